@@ -32,294 +32,431 @@ func maOf(kind, p int) trend.Ma[float64] {
 
 var indicatorArity = map[string]int{}
 
-var indicators = map[string]indFn{
-	"Apo": func(n []int, f []float64, in []<-chan float64) ([]<-chan float64, int) {
+// instFn is Compute on one (possibly reused) instance
+type instFn func(in []<-chan float64) ([]<-chan float64, int)
+
+var indicators = map[string]indFn{}
+
+func init() {
+	for name, ctor := range indCtors {
+		ctor := ctor
+		indicators[name] = func(n []int, f []float64, in []<-chan float64) ([]<-chan float64, int) {
+			return ctor(n, f)(in)
+		}
+	}
+}
+
+// indCtors: build and configure one instance; the returned closure calls Compute on that instance
+var indCtors = map[string]func(n []int, f []float64) instFn{
+	"Apo": func(n []int, f []float64) instFn {
 		x := trend.NewApo[float64]()
 		x.FastPeriod, x.SlowPeriod = n[0], n[1]
-		return outs(x.Compute(in[0])), -1
+		return func(in []<-chan float64) ([]<-chan float64, int) {
+			return outs(x.Compute(in[0])), -1
+		}
 	},
-	"Aroon": func(n []int, f []float64, in []<-chan float64) ([]<-chan float64, int) {
+	"Aroon": func(n []int, f []float64) instFn {
 		x := trend.NewAroon[float64]()
 		x.Period = n[0]
-		a, b := x.Compute(in[0], in[1])
-		return outs(a, b), -1
+		return func(in []<-chan float64) ([]<-chan float64, int) {
+			a, b := x.Compute(in[0], in[1])
+			return outs(a, b), -1
+		}
 	},
-	"Bop": func(n []int, f []float64, in []<-chan float64) ([]<-chan float64, int) {
+	"Bop": func(n []int, f []float64) instFn {
 		x := trend.NewBop[float64]()
-		return outs(x.Compute(in[0], in[1], in[2], in[3])), -1
+		return func(in []<-chan float64) ([]<-chan float64, int) {
+			return outs(x.Compute(in[0], in[1], in[2], in[3])), -1
+		}
 	},
-	"Cci": func(n []int, f []float64, in []<-chan float64) ([]<-chan float64, int) {
+	"Cci": func(n []int, f []float64) instFn {
 		x := trend.NewCciWithPeriod[float64](n[0])
-		return outs(x.Compute(in[0], in[1], in[2])), x.IdlePeriod()
+		return func(in []<-chan float64) ([]<-chan float64, int) {
+			return outs(x.Compute(in[0], in[1], in[2])), x.IdlePeriod()
+		}
 	},
-	"Dema": func(n []int, f []float64, in []<-chan float64) ([]<-chan float64, int) {
+	"Dema": func(n []int, f []float64) instFn {
 		x := trend.NewDema[float64]()
 		x.Ema1.Period, x.Ema2.Period = n[0], n[1]
-		return outs(x.Compute(in[0])), x.IdlePeriod()
+		return func(in []<-chan float64) ([]<-chan float64, int) {
+			return outs(x.Compute(in[0])), x.IdlePeriod()
+		}
 	},
-	"Ema": func(n []int, f []float64, in []<-chan float64) ([]<-chan float64, int) {
+	"Ema": func(n []int, f []float64) instFn {
 		x := trend.NewEmaWithPeriod[float64](n[0])
-		return outs(x.Compute(in[0])), x.IdlePeriod()
+		return func(in []<-chan float64) ([]<-chan float64, int) {
+			return outs(x.Compute(in[0])), x.IdlePeriod()
+		}
 	},
-	"Envelope": func(n []int, f []float64, in []<-chan float64) ([]<-chan float64, int) {
+	"Envelope": func(n []int, f []float64) instFn {
 		x := trend.NewEnvelope[float64](maOf(n[0], n[1]), f[0])
-		a, b, c := x.Compute(in[0])
-		return outs(a, b, c), x.IdlePeriod()
+		return func(in []<-chan float64) ([]<-chan float64, int) {
+			a, b, c := x.Compute(in[0])
+			return outs(a, b, c), x.IdlePeriod()
+		}
 	},
-	"Hma": func(n []int, f []float64, in []<-chan float64) ([]<-chan float64, int) {
+	"Hma": func(n []int, f []float64) instFn {
 		x := trend.NewHmaWithPeriod[float64](n[0])
-		return outs(x.Compute(in[0])), x.IdlePeriod()
+		return func(in []<-chan float64) ([]<-chan float64, int) {
+			return outs(x.Compute(in[0])), x.IdlePeriod()
+		}
 	},
-	"Kama": func(n []int, f []float64, in []<-chan float64) ([]<-chan float64, int) {
+	"Kama": func(n []int, f []float64) instFn {
 		x := trend.NewKamaWith[float64](n[0], n[1], n[2])
-		return outs(x.Compute(in[0])), x.IdlePeriod()
+		return func(in []<-chan float64) ([]<-chan float64, int) {
+			return outs(x.Compute(in[0])), x.IdlePeriod()
+		}
 	},
-	"Kdj": func(n []int, f []float64, in []<-chan float64) ([]<-chan float64, int) {
+	"Kdj": func(n []int, f []float64) instFn {
 		x := trend.NewKdj[float64]()
 		x.MovingMax.Period, x.MovingMin.Period, x.Sma1.Period, x.Sma2.Period = n[0], n[0], n[1], n[2]
-		a, b, c := x.Compute(in[0], in[1], in[2])
-		return outs(a, b, c), x.IdlePeriod()
+		return func(in []<-chan float64) ([]<-chan float64, int) {
+			a, b, c := x.Compute(in[0], in[1], in[2])
+			return outs(a, b, c), x.IdlePeriod()
+		}
 	},
-	"Macd": func(n []int, f []float64, in []<-chan float64) ([]<-chan float64, int) {
+	"Macd": func(n []int, f []float64) instFn {
 		x := trend.NewMacdWithPeriod[float64](n[0], n[1], n[2])
-		a, b := x.Compute(in[0])
-		return outs(a, b), x.IdlePeriod()
+		return func(in []<-chan float64) ([]<-chan float64, int) {
+			a, b := x.Compute(in[0])
+			return outs(a, b), x.IdlePeriod()
+		}
 	},
-	"MassIndex": func(n []int, f []float64, in []<-chan float64) ([]<-chan float64, int) {
+	"MassIndex": func(n []int, f []float64) instFn {
 		x := trend.NewMassIndex[float64]()
 		x.Ema1.Period, x.Ema2.Period, x.MovingSum.Period = n[0], n[1], n[2]
-		return outs(x.Compute(in[0], in[1])), x.IdlePeriod()
+		return func(in []<-chan float64) ([]<-chan float64, int) {
+			return outs(x.Compute(in[0], in[1])), x.IdlePeriod()
+		}
 	},
-	"Mlr": func(n []int, f []float64, in []<-chan float64) ([]<-chan float64, int) {
+	"Mlr": func(n []int, f []float64) instFn {
 		x := trend.NewMlrWithPeriod[float64](n[0])
-		return outs(x.Compute(in[0], in[1])), x.IdlePeriod()
+		return func(in []<-chan float64) ([]<-chan float64, int) {
+			return outs(x.Compute(in[0], in[1])), x.IdlePeriod()
+		}
 	},
-	"Mls": func(n []int, f []float64, in []<-chan float64) ([]<-chan float64, int) {
+	"Mls": func(n []int, f []float64) instFn {
 		x := trend.NewMlsWithPeriod[float64](n[0])
-		a, b := x.Compute(in[0], in[1])
-		return outs(a, b), x.IdlePeriod()
+		return func(in []<-chan float64) ([]<-chan float64, int) {
+			a, b := x.Compute(in[0], in[1])
+			return outs(a, b), x.IdlePeriod()
+		}
 	},
-	"MovingMax": func(n []int, f []float64, in []<-chan float64) ([]<-chan float64, int) {
+	"MovingMax": func(n []int, f []float64) instFn {
 		x := trend.NewMovingMaxWithPeriod[float64](n[0])
-		return outs(x.Compute(in[0])), x.IdlePeriod()
+		return func(in []<-chan float64) ([]<-chan float64, int) {
+			return outs(x.Compute(in[0])), x.IdlePeriod()
+		}
 	},
-	"MovingMin": func(n []int, f []float64, in []<-chan float64) ([]<-chan float64, int) {
+	"MovingMin": func(n []int, f []float64) instFn {
 		x := trend.NewMovingMinWithPeriod[float64](n[0])
-		return outs(x.Compute(in[0])), x.IdlePeriod()
+		return func(in []<-chan float64) ([]<-chan float64, int) {
+			return outs(x.Compute(in[0])), x.IdlePeriod()
+		}
 	},
-	"MovingSum": func(n []int, f []float64, in []<-chan float64) ([]<-chan float64, int) {
+	"MovingSum": func(n []int, f []float64) instFn {
 		x := trend.NewMovingSumWithPeriod[float64](n[0])
-		return outs(x.Compute(in[0])), x.IdlePeriod()
+		return func(in []<-chan float64) ([]<-chan float64, int) {
+			return outs(x.Compute(in[0])), x.IdlePeriod()
+		}
 	},
-	"Rma": func(n []int, f []float64, in []<-chan float64) ([]<-chan float64, int) {
+	"Rma": func(n []int, f []float64) instFn {
 		x := trend.NewRmaWithPeriod[float64](n[0])
-		return outs(x.Compute(in[0])), x.IdlePeriod()
+		return func(in []<-chan float64) ([]<-chan float64, int) {
+			return outs(x.Compute(in[0])), x.IdlePeriod()
+		}
 	},
-	"Sma": func(n []int, f []float64, in []<-chan float64) ([]<-chan float64, int) {
+	"Sma": func(n []int, f []float64) instFn {
 		x := trend.NewSmaWithPeriod[float64](n[0])
-		return outs(x.Compute(in[0])), x.IdlePeriod()
+		return func(in []<-chan float64) ([]<-chan float64, int) {
+			return outs(x.Compute(in[0])), x.IdlePeriod()
+		}
 	},
-	"Smma": func(n []int, f []float64, in []<-chan float64) ([]<-chan float64, int) {
+	"Smma": func(n []int, f []float64) instFn {
 		x := trend.NewSmmaWithPeriod[float64](n[0])
-		return outs(x.Compute(in[0])), x.IdlePeriod()
+		return func(in []<-chan float64) ([]<-chan float64, int) {
+			return outs(x.Compute(in[0])), x.IdlePeriod()
+		}
 	},
-	"Tema": func(n []int, f []float64, in []<-chan float64) ([]<-chan float64, int) {
+	"Tema": func(n []int, f []float64) instFn {
 		x := trend.NewTema[float64]()
 		x.Ema1.Period, x.Ema2.Period, x.Ema3.Period = n[0], n[1], n[2]
-		return outs(x.Compute(in[0])), x.IdlePeriod()
+		return func(in []<-chan float64) ([]<-chan float64, int) {
+			return outs(x.Compute(in[0])), x.IdlePeriod()
+		}
 	},
-	"Trima": func(n []int, f []float64, in []<-chan float64) ([]<-chan float64, int) {
+	"Trima": func(n []int, f []float64) instFn {
 		x := trend.NewTrima[float64]()
 		x.Period = n[0]
-		return outs(x.Compute(in[0])), x.IdlePeriod()
+		return func(in []<-chan float64) ([]<-chan float64, int) {
+			return outs(x.Compute(in[0])), x.IdlePeriod()
+		}
 	},
-	"Trix": func(n []int, f []float64, in []<-chan float64) ([]<-chan float64, int) {
+	"Trix": func(n []int, f []float64) instFn {
 		x := trend.NewTrix[float64]()
 		x.Period = n[0]
-		return outs(x.Compute(in[0])), x.IdlePeriod()
+		return func(in []<-chan float64) ([]<-chan float64, int) {
+			return outs(x.Compute(in[0])), x.IdlePeriod()
+		}
 	},
-	"Tsi": func(n []int, f []float64, in []<-chan float64) ([]<-chan float64, int) {
+	"Tsi": func(n []int, f []float64) instFn {
 		x := trend.NewTsiWith[float64](n[0], n[1])
-		return outs(x.Compute(in[0])), x.IdlePeriod()
+		return func(in []<-chan float64) ([]<-chan float64, int) {
+			return outs(x.Compute(in[0])), x.IdlePeriod()
+		}
 	},
-	"TypicalPrice": func(n []int, f []float64, in []<-chan float64) ([]<-chan float64, int) {
+	"TypicalPrice": func(n []int, f []float64) instFn {
 		x := trend.NewTypicalPrice[float64]()
-		return outs(x.Compute(in[0], in[1], in[2])), -1
+		return func(in []<-chan float64) ([]<-chan float64, int) {
+			return outs(x.Compute(in[0], in[1], in[2])), -1
+		}
 	},
-	"Vwma": func(n []int, f []float64, in []<-chan float64) ([]<-chan float64, int) {
+	"Vwma": func(n []int, f []float64) instFn {
 		x := trend.NewVwma[float64]()
 		x.Period = n[0]
-		return outs(x.Compute(in[0], in[1])), x.IdlePeriod()
+		return func(in []<-chan float64) ([]<-chan float64, int) {
+			return outs(x.Compute(in[0], in[1])), x.IdlePeriod()
+		}
 	},
-	"WeightedClose": func(n []int, f []float64, in []<-chan float64) ([]<-chan float64, int) {
+	"WeightedClose": func(n []int, f []float64) instFn {
 		x := trend.NewWeightedClose[float64]()
-		return outs(x.Compute(in[0], in[1], in[2])), x.IdlePeriod()
+		return func(in []<-chan float64) ([]<-chan float64, int) {
+			return outs(x.Compute(in[0], in[1], in[2])), x.IdlePeriod()
+		}
 	},
-	"Wma": func(n []int, f []float64, in []<-chan float64) ([]<-chan float64, int) {
+	"Wma": func(n []int, f []float64) instFn {
 		x := trend.NewWmaWith[float64](n[0])
-		return outs(x.Compute(in[0])), x.IdlePeriod()
+		return func(in []<-chan float64) ([]<-chan float64, int) {
+			return outs(x.Compute(in[0])), x.IdlePeriod()
+		}
 	},
 	// momentum
-	"AwesomeOscillator": func(n []int, f []float64, in []<-chan float64) ([]<-chan float64, int) {
+	"AwesomeOscillator": func(n []int, f []float64) instFn {
 		x := momentum.NewAwesomeOscillator[float64]()
 		x.ShortSma.Period, x.LongSma.Period = n[0], n[1]
-		return outs(x.Compute(in[0], in[1])), x.IdlePeriod()
+		return func(in []<-chan float64) ([]<-chan float64, int) {
+			return outs(x.Compute(in[0], in[1])), x.IdlePeriod()
+		}
 	},
-	"ChaikinOscillator": func(n []int, f []float64, in []<-chan float64) ([]<-chan float64, int) {
+	"ChaikinOscillator": func(n []int, f []float64) instFn {
 		x := momentum.NewChaikinOscillator[float64]()
 		x.ShortEma.Period, x.LongEma.Period = n[0], n[1]
-		a, b := x.Compute(in[0], in[1], in[2], in[3])
-		return outs(a, b), x.IdlePeriod()
+		return func(in []<-chan float64) ([]<-chan float64, int) {
+			a, b := x.Compute(in[0], in[1], in[2], in[3])
+			return outs(a, b), x.IdlePeriod()
+		}
 	},
-	"IchimokuCloud": func(n []int, f []float64, in []<-chan float64) ([]<-chan float64, int) {
+	"IchimokuCloud": func(n []int, f []float64) instFn {
 		x := momentum.NewIchimokuCloud[float64]()
 		x.ConversionMax.Period, x.ConversionMin.Period = n[0], n[0]
 		x.BaseMax.Period, x.BaseMin.Period = n[1], n[1]
 		x.LeadingMax.Period, x.LeadingMin.Period = n[2], n[2]
 		x.LaggingPeriod = n[3]
-		a, b, c, d, e := x.Compute(in[0], in[1], in[2])
-		return outs(a, b, c, d, e), x.IdlePeriod()
+		return func(in []<-chan float64) ([]<-chan float64, int) {
+			a, b, c, d, e := x.Compute(in[0], in[1], in[2])
+			return outs(a, b, c, d, e), x.IdlePeriod()
+		}
 	},
-	"Ppo": func(n []int, f []float64, in []<-chan float64) ([]<-chan float64, int) {
+	"Ppo": func(n []int, f []float64) instFn {
 		x := momentum.NewPpo[float64]()
 		x.ShortEma.Period, x.LongEma.Period, x.SignalEma.Period = n[0], n[1], n[2]
-		a, b, c := x.Compute(in[0])
-		return outs(a, b, c), x.IdlePeriod()
+		return func(in []<-chan float64) ([]<-chan float64, int) {
+			a, b, c := x.Compute(in[0])
+			return outs(a, b, c), x.IdlePeriod()
+		}
 	},
-	"Pvo": func(n []int, f []float64, in []<-chan float64) ([]<-chan float64, int) {
+	"Pvo": func(n []int, f []float64) instFn {
 		x := momentum.NewPvo[float64]()
 		x.ShortEma.Period, x.LongEma.Period, x.SignalEma.Period = n[0], n[1], n[2]
-		a, b, c := x.Compute(in[0])
-		return outs(a, b, c), x.IdlePeriod()
+		return func(in []<-chan float64) ([]<-chan float64, int) {
+			a, b, c := x.Compute(in[0])
+			return outs(a, b, c), x.IdlePeriod()
+		}
 	},
-	"Qstick": func(n []int, f []float64, in []<-chan float64) ([]<-chan float64, int) {
+	"Qstick": func(n []int, f []float64) instFn {
 		x := momentum.NewQstick[float64]()
 		x.Sma.Period = n[0]
-		return outs(x.Compute(in[0], in[1])), x.IdlePeriod()
+		return func(in []<-chan float64) ([]<-chan float64, int) {
+			return outs(x.Compute(in[0], in[1])), x.IdlePeriod()
+		}
 	},
-	"Rsi": func(n []int, f []float64, in []<-chan float64) ([]<-chan float64, int) {
+	"Rsi": func(n []int, f []float64) instFn {
 		x := momentum.NewRsiWithPeriod[float64](n[0])
-		return outs(x.Compute(in[0])), x.IdlePeriod()
+		return func(in []<-chan float64) ([]<-chan float64, int) {
+			return outs(x.Compute(in[0])), x.IdlePeriod()
+		}
 	},
-	"StochasticOscillator": func(n []int, f []float64, in []<-chan float64) ([]<-chan float64, int) {
+	"StochasticOscillator": func(n []int, f []float64) instFn {
 		x := momentum.NewStochasticOscillator[float64]()
 		x.Max.Period, x.Min.Period, x.Sma.Period = n[0], n[0], n[1]
-		a, b := x.Compute(in[0], in[1], in[2])
-		return outs(a, b), x.IdlePeriod()
+		return func(in []<-chan float64) ([]<-chan float64, int) {
+			a, b := x.Compute(in[0], in[1], in[2])
+			return outs(a, b), x.IdlePeriod()
+		}
 	},
-	"StochasticRsi": func(n []int, f []float64, in []<-chan float64) ([]<-chan float64, int) {
+	"StochasticRsi": func(n []int, f []float64) instFn {
 		x := momentum.NewStochasticRsiWithPeriod[float64](n[0])
-		return outs(x.Compute(in[0])), x.IdlePeriod()
+		return func(in []<-chan float64) ([]<-chan float64, int) {
+			return outs(x.Compute(in[0])), x.IdlePeriod()
+		}
 	},
-	"WilliamsR": func(n []int, f []float64, in []<-chan float64) ([]<-chan float64, int) {
+	"WilliamsR": func(n []int, f []float64) instFn {
 		x := momentum.NewWilliamsR[float64]()
 		x.Max.Period, x.Min.Period = n[0], n[0]
-		return outs(x.Compute(in[0], in[1], in[2])), x.IdlePeriod()
+		return func(in []<-chan float64) ([]<-chan float64, int) {
+			return outs(x.Compute(in[0], in[1], in[2])), x.IdlePeriod()
+		}
 	},
 	// volatility
-	"AccelerationBands": func(n []int, f []float64, in []<-chan float64) ([]<-chan float64, int) {
+	"AccelerationBands": func(n []int, f []float64) instFn {
 		x := volatility.NewAccelerationBands[float64]()
 		x.Period = n[0]
-		a, b, c := x.Compute(in[0], in[1], in[2])
-		return outs(a, b, c), x.IdlePeriod()
+		return func(in []<-chan float64) ([]<-chan float64, int) {
+			a, b, c := x.Compute(in[0], in[1], in[2])
+			return outs(a, b, c), x.IdlePeriod()
+		}
 	},
-	"Atr": func(n []int, f []float64, in []<-chan float64) ([]<-chan float64, int) {
+	"Atr": func(n []int, f []float64) instFn {
 		x := volatility.NewAtrWithMa[float64](maOf(n[0], n[1]))
-		return outs(x.Compute(in[0], in[1], in[2])), x.IdlePeriod()
+		return func(in []<-chan float64) ([]<-chan float64, int) {
+			return outs(x.Compute(in[0], in[1], in[2])), x.IdlePeriod()
+		}
 	},
-	"BollingerBandWidth": func(n []int, f []float64, in []<-chan float64) ([]<-chan float64, int) {
+	"BollingerBandWidth": func(n []int, f []float64) instFn {
 		x := volatility.NewBollingerBandWidth[float64]()
 		x.BollingerBands.Period = n[0]
-		return outs(x.Compute(in[0])), x.IdlePeriod()
+		return func(in []<-chan float64) ([]<-chan float64, int) {
+			return outs(x.Compute(in[0])), x.IdlePeriod()
+		}
 	},
-	"BollingerBands": func(n []int, f []float64, in []<-chan float64) ([]<-chan float64, int) {
+	"BollingerBands": func(n []int, f []float64) instFn {
 		x := volatility.NewBollingerBandsWithPeriod[float64](n[0])
-		a, b, c := x.Compute(in[0])
-		return outs(a, b, c), x.IdlePeriod()
+		return func(in []<-chan float64) ([]<-chan float64, int) {
+			a, b, c := x.Compute(in[0])
+			return outs(a, b, c), x.IdlePeriod()
+		}
 	},
-	"ChandelierExit": func(n []int, f []float64, in []<-chan float64) ([]<-chan float64, int) {
+	"ChandelierExit": func(n []int, f []float64) instFn {
 		x := volatility.NewChandelierExit[float64]()
 		x.Period, x.Multiplier = n[0], f[0]
-		a, b := x.Compute(in[0], in[1], in[2])
-		return outs(a, b), x.IdlePeriod()
+		return func(in []<-chan float64) ([]<-chan float64, int) {
+			a, b := x.Compute(in[0], in[1], in[2])
+			return outs(a, b), x.IdlePeriod()
+		}
 	},
-	"DonchianChannel": func(n []int, f []float64, in []<-chan float64) ([]<-chan float64, int) {
+	"DonchianChannel": func(n []int, f []float64) instFn {
 		x := volatility.NewDonchianChannelWithPeriod[float64](n[0])
-		a, b, c := x.Compute(in[0])
-		return outs(a, b, c), x.IdlePeriod()
+		return func(in []<-chan float64) ([]<-chan float64, int) {
+			a, b, c := x.Compute(in[0])
+			return outs(a, b, c), x.IdlePeriod()
+		}
 	},
-	"KeltnerChannel": func(n []int, f []float64, in []<-chan float64) ([]<-chan float64, int) {
+	"KeltnerChannel": func(n []int, f []float64) instFn {
 		x := volatility.NewKeltnerChannelWithPeriod[float64](n[0])
-		a, b, c := x.Compute(in[0], in[1], in[2])
-		return outs(a, b, c), x.IdlePeriod()
+		return func(in []<-chan float64) ([]<-chan float64, int) {
+			a, b, c := x.Compute(in[0], in[1], in[2])
+			return outs(a, b, c), x.IdlePeriod()
+		}
 	},
-	"MovingStd": func(n []int, f []float64, in []<-chan float64) ([]<-chan float64, int) {
+	"MovingStd": func(n []int, f []float64) instFn {
 		x := volatility.NewMovingStdWithPeriod[float64](n[0])
-		return outs(x.Compute(in[0])), x.IdlePeriod()
+		return func(in []<-chan float64) ([]<-chan float64, int) {
+			return outs(x.Compute(in[0])), x.IdlePeriod()
+		}
 	},
-	"PercentB": func(n []int, f []float64, in []<-chan float64) ([]<-chan float64, int) {
+	"PercentB": func(n []int, f []float64) instFn {
 		x := volatility.NewPercentBWithPeriod[float64](n[0])
-		return outs(x.Compute(in[0])), x.IdlePeriod()
+		return func(in []<-chan float64) ([]<-chan float64, int) {
+			return outs(x.Compute(in[0])), x.IdlePeriod()
+		}
 	},
-	"Po": func(n []int, f []float64, in []<-chan float64) ([]<-chan float64, int) {
+	"Po": func(n []int, f []float64) instFn {
 		x := volatility.NewPoWithPeriod[float64](n[0])
-		return outs(x.Compute(in[0], in[1], in[2])), x.IdlePeriod()
+		return func(in []<-chan float64) ([]<-chan float64, int) {
+			return outs(x.Compute(in[0], in[1], in[2])), x.IdlePeriod()
+		}
 	},
-	"SuperTrend": func(n []int, f []float64, in []<-chan float64) ([]<-chan float64, int) {
+	"SuperTrend": func(n []int, f []float64) instFn {
 		x := volatility.NewSuperTrendWithMa[float64](maOf(n[0], n[1]), f[0])
-		return outs(x.Compute(in[0], in[1], in[2])), x.IdlePeriod()
+		return func(in []<-chan float64) ([]<-chan float64, int) {
+			return outs(x.Compute(in[0], in[1], in[2])), x.IdlePeriod()
+		}
 	},
-	"UlcerIndex": func(n []int, f []float64, in []<-chan float64) ([]<-chan float64, int) {
+	"UlcerIndex": func(n []int, f []float64) instFn {
 		x := volatility.NewUlcerIndex[float64]()
 		x.Period = n[0]
-		return outs(x.Compute(in[0])), x.IdlePeriod()
+		return func(in []<-chan float64) ([]<-chan float64, int) {
+			return outs(x.Compute(in[0])), x.IdlePeriod()
+		}
 	},
 	// volume
-	"Ad": func(n []int, f []float64, in []<-chan float64) ([]<-chan float64, int) {
+	"Ad": func(n []int, f []float64) instFn {
 		x := volume.NewAd[float64]()
-		return outs(x.Compute(in[0], in[1], in[2], in[3])), x.IdlePeriod()
+		return func(in []<-chan float64) ([]<-chan float64, int) {
+			return outs(x.Compute(in[0], in[1], in[2], in[3])), x.IdlePeriod()
+		}
 	},
-	"Cmf": func(n []int, f []float64, in []<-chan float64) ([]<-chan float64, int) {
+	"Cmf": func(n []int, f []float64) instFn {
 		x := volume.NewCmfWithPeriod[float64](n[0])
-		return outs(x.Compute(in[0], in[1], in[2], in[3])), x.IdlePeriod()
+		return func(in []<-chan float64) ([]<-chan float64, int) {
+			return outs(x.Compute(in[0], in[1], in[2], in[3])), x.IdlePeriod()
+		}
 	},
-	"Emv": func(n []int, f []float64, in []<-chan float64) ([]<-chan float64, int) {
+	"Emv": func(n []int, f []float64) instFn {
 		x := volume.NewEmvWithPeriod[float64](n[0])
-		return outs(x.Compute(in[0], in[1], in[2])), x.IdlePeriod()
+		return func(in []<-chan float64) ([]<-chan float64, int) {
+			return outs(x.Compute(in[0], in[1], in[2])), x.IdlePeriod()
+		}
 	},
-	"Fi": func(n []int, f []float64, in []<-chan float64) ([]<-chan float64, int) {
+	"Fi": func(n []int, f []float64) instFn {
 		x := volume.NewFiWithPeriod[float64](n[0])
-		return outs(x.Compute(in[0], in[1])), x.IdlePeriod()
+		return func(in []<-chan float64) ([]<-chan float64, int) {
+			return outs(x.Compute(in[0], in[1])), x.IdlePeriod()
+		}
 	},
-	"Mfi": func(n []int, f []float64, in []<-chan float64) ([]<-chan float64, int) {
+	"Mfi": func(n []int, f []float64) instFn {
 		x := volume.NewMfi[float64]()
 		x.Sum.Period = n[0]
-		return outs(x.Compute(in[0], in[1], in[2], in[3])), x.IdlePeriod()
+		return func(in []<-chan float64) ([]<-chan float64, int) {
+			return outs(x.Compute(in[0], in[1], in[2], in[3])), x.IdlePeriod()
+		}
 	},
-	"Mfm": func(n []int, f []float64, in []<-chan float64) ([]<-chan float64, int) {
+	"Mfm": func(n []int, f []float64) instFn {
 		x := volume.NewMfm[float64]()
-		return outs(x.Compute(in[0], in[1], in[2])), x.IdlePeriod()
+		return func(in []<-chan float64) ([]<-chan float64, int) {
+			return outs(x.Compute(in[0], in[1], in[2])), x.IdlePeriod()
+		}
 	},
-	"Mfv": func(n []int, f []float64, in []<-chan float64) ([]<-chan float64, int) {
+	"Mfv": func(n []int, f []float64) instFn {
 		x := volume.NewMfv[float64]()
-		return outs(x.Compute(in[0], in[1], in[2], in[3])), x.IdlePeriod()
+		return func(in []<-chan float64) ([]<-chan float64, int) {
+			return outs(x.Compute(in[0], in[1], in[2], in[3])), x.IdlePeriod()
+		}
 	},
-	"Nvi": func(n []int, f []float64, in []<-chan float64) ([]<-chan float64, int) {
+	"Nvi": func(n []int, f []float64) instFn {
 		x := volume.NewNvi[float64]()
 		x.Initial = f[0]
-		return outs(x.Compute(in[0], in[1])), x.IdlePeriod()
+		return func(in []<-chan float64) ([]<-chan float64, int) {
+			return outs(x.Compute(in[0], in[1])), x.IdlePeriod()
+		}
 	},
-	"Obv": func(n []int, f []float64, in []<-chan float64) ([]<-chan float64, int) {
+	"Obv": func(n []int, f []float64) instFn {
 		x := volume.NewObv[float64]()
-		return outs(x.Compute(in[0], in[1])), x.IdlePeriod()
+		return func(in []<-chan float64) ([]<-chan float64, int) {
+			return outs(x.Compute(in[0], in[1])), x.IdlePeriod()
+		}
 	},
-	"Vpt": func(n []int, f []float64, in []<-chan float64) ([]<-chan float64, int) {
+	"Vpt": func(n []int, f []float64) instFn {
 		x := volume.NewVpt[float64]()
-		return outs(x.Compute(in[0], in[1])), x.IdlePeriod()
+		return func(in []<-chan float64) ([]<-chan float64, int) {
+			return outs(x.Compute(in[0], in[1])), x.IdlePeriod()
+		}
 	},
-	"Vwap": func(n []int, f []float64, in []<-chan float64) ([]<-chan float64, int) {
+	"Vwap": func(n []int, f []float64) instFn {
 		x := volume.NewVwapWithPeriod[float64](n[0])
-		return outs(x.Compute(in[0], in[1])), x.IdlePeriod()
+		return func(in []<-chan float64) ([]<-chan float64, int) {
+			return outs(x.Compute(in[0], in[1])), x.IdlePeriod()
+		}
 	},
 }
 
